@@ -10,6 +10,7 @@ from ..astutil import inside
 from ..core import AnalysisError, const_value, walk_own
 from ..tutil import EvUnknown, ev_term, lin, seq_parts, simp
 from ..defuse import DefUse, Terms, show, walk_term
+from ..defuse import key as tkey
 from ..memo import check_no_cross_call_state
 
 EXPLANATION = (
@@ -37,6 +38,9 @@ FA = "mokapot.parsers.fasta."
 
 
 def run(ctx):
+    from .common import READ_FASTA, FASTA_DIGEST_OPTIONS, cli_routing
+    cli_routing(ctx, "C17c-cli-digest-options", READ_FASTA, FASTA_DIGEST_OPTIONS,
+                "the digestion")
     prog = ctx.prog
     _sites(ctx, prog.func(FA + "_cleavage_sites"))
     _cleave(ctx, prog.func(FA + "_cleave"))
@@ -257,9 +261,33 @@ def _cleave(ctx, f):
     if len(semi_loops) == 1:
         CUT = ("elem", T.of(semi_loops[0].iter))
 
-    def conds(node):
-        return [(simp(T.of(t)), o) for t, o in cfg.necessary_conditions(node)
-                if inside(t, il)]
+    # conditions that look at what was found so far: a membership test on
+    # the result that only protects the addition of that very value changes
+    # nothing; any other dependence on the history makes the forms derived
+    # from a peptide depend on which peptides happened to come first
+    history = []
+    result_names = {RES}
+
+    def reads_result(t):
+        return any(isinstance(x, tuple) and len(x) >= 2
+                   and x[0] in ("var", "rec") and x[1] in result_names
+                   for x in walk_term(t))
+
+    def conds(node, value=None):
+        out = []
+        for t, o in cfg.necessary_conditions(node):
+            if not inside(t, il):
+                continue
+            tt = simp(T.of(t))
+            if reads_result(tt):
+                same = tt[0] == "cmp" and tt[1] in ("in", "not in") and \
+                    value is not None and tt[2] == value and \
+                    (tt[1] == "not in") == bool(o)
+                if not same:
+                    history.append((node, tt, o))
+                continue
+            out.append((tt, o))
+        return out
 
     def atoms_for(v):
         def atoms(t):
@@ -287,8 +315,8 @@ def _cleave(ctx, f):
         at = atoms_for(v)
         return all(bool(ev_term(t, at)) == o for t, o in cs)
 
-    main = [(n, conds(n)) for n, v in added if v == PEP]
-    clip = [(n, conds(n)) for n, v in added if v == CLIPPED]
+    main = [(n, conds(n, v)) for n, v in added if v == PEP]
+    clip = [(n, conds(n, v)) for n, v in added if v == CLIPPED]
     bad_rc, bad_len = [], []
     try:
         ok_main = len(main) == 1
@@ -377,7 +405,7 @@ def _cleave(ctx, f):
             f"semi adds {[show(v, 80) for _n, v in semi_adds]}", node=sl)
         bad = []
         for n, _v in semi_adds:
-            cs = conds(n)
+            cs = conds(n, _v)
             for L, c in itertools.product((7, 9), range(1, 9)):
                 if c >= L:
                     continue
@@ -410,6 +438,25 @@ def _cleave(ctx, f):
     except (EvUnknown, KeyError) as e:
         raise AnalysisError(f"{f.qual}: a guard uses a quantity outside "
                             f"the evaluated fragment: {e}")
+    finally:
+        seen_h = set()
+        for node, tt, o in history:
+            k = (getattr(node, "lineno", 0), tkey(tt), o)
+            if k in seen_h:
+                continue
+            seen_h.add(k)
+            ctx.fail("C17c-no-history-dependence", f,
+                     f"line {getattr(node, 'lineno', '?')}",
+                     f"whether this runs depends on {show(tt, 80)} being "
+                     f"{o}: the result collected so far decides which forms "
+                     "of a peptide are generated, so peptides are lost "
+                     "depending on the order in which they are met (and "
+                     "widening an option can remove peptides)", node=node)
+        if not history:
+            ctx.ok("C17c-no-history-dependence", f,
+                   "no guard of the digestion reads the result collected so "
+                   "far (other than 'not yet in the result' for the value "
+                   "being added)")
 
 
 def _through(v, pep):
